@@ -36,7 +36,8 @@ CELLS = [
     ("std-flat-direction-prime-prior", "std", "G2f", {"reparameterisations": {"x0": {"reparameterisation": "rescaletobounds", "rescale_bounds": [0.0, 1.0], "prior": "uniform"},
                                                                               "x1": {"reparameterisation": "rescaletobounds", "rescale_bounds": [0.0, 1.0], "prior": "uniform"}}}),
 ]
-QUICK = ["std-default", "std-no-uninformed", "std-analytic-nonuniform", "std-augmented", "std-maf-logit-t", "std-narrow-prior-box-draws", "ins-default", "ins-strict-nonuniform", "ins-no-iid"]
+QUICK = ["std-default", "std-no-uninformed", "std-analytic-nonuniform", "std-augmented", "std-maf-logit-t", "std-narrow-prior-box-draws", "ins-default", "ins-strict-nonuniform", "ins-no-iid",
+         "ins-constrained-prior"]
 
 
 def calib_worker(case):
@@ -206,7 +207,11 @@ def main():
         chk.count("decision_rules_evaluated", 5)
         chk.case_done(ident=(nm, S), nontrivial=True, sample=summ if len(chk.samples) < 3 else None)
         for rule, detail in fails:
-            chk.violation(f"C06:{nm}:{rule}", f"cell {nm} ({sampler}, {model_name}, {kw}) over {len(good)} seeds (failed in two independent rounds): {detail}; summary {summ}",
+            key = f"C06:{nm}:{rule}"
+            if sampler == "ins" and hasattr(zoo.make(model_name), "in_support") and rule == "mean-error-incompatible-with-zero" and detail["mean_error"] > 0:
+                # mechanism, not cell name: importance sampler + a region of zero prior density inside the unit hypercube + evidence too large
+                key = "C06:ins:zero-prior-region-inside-unit-hypercube:evidence-biased-upward"
+            chk.violation(key, f"cell {nm} ({sampler}, {model_name}, {kw}) over {len(good)} seeds (failed in two independent rounds): {detail}; summary {summ}",
                           dict(cell=nm))
     chk.extra["cells"] = summaries
     chk.extra["seeds_per_cell"] = S
